@@ -10,7 +10,7 @@
              PROPERTY: data-access items and store dumps are what ExecSpec prescribes (a
              diagnostic request changes no cell), and inside the conformance region of
              ExecOtherSpec the observed response / control block are the spec's). *)
-From PM.theories Require Import Base Expr Store PduCls Pdu CorrPdu Device Exec ExecSpec ExecView CorrExec ExecOther ExecOtherSpec ExecOtherView.
+From PM.theories Require Import Base Expr Store PduCls Pdu CorrPdu Device Exec ExecSpec ExecView ExecWire CorrExec ExecOther ExecOtherSpec ExecOtherView.
 Open Scope string_scope.
 Open Scope list_scope.
 Open Scope Z_scope.
@@ -18,7 +18,7 @@ Open Scope Z_scope.
 Inductive oobs := OSeen (o : obj) | ORaised (e : pyexn).
 
 Inductive xitem :=
-| XData (w : wreq) (r : req) (o : obs_rsp)
+| XData (w : wreq) (r : req) (o : obs_rsp) (pdu : list Z)
 | XOther (q : obj) (o : oobs) (after : device)
 | XSetCounter (i : nat) (v : Z) (after : device)
 | XAddEvent (e : bytes) (after : device)
@@ -48,7 +48,7 @@ Definition exec_matches (dv : device) (q : obj) (o : oobs) : option device :=
 Fixpoint model_x (st : slavectx) (dv : device) (h : list xitem) : bool :=
   match h with
   | [] => true
-  | XData w r o :: t =>
+  | XData w r o _ :: t =>
       match decode_attrs w with
       | Ok r' => req_eqb r' r &&
                  (let '(st', m) := serve X (std_ops C) st r in rsp_matches X m o && model_x st' dv t)
@@ -88,9 +88,9 @@ Definition other_ok_obs (s : sdev) (q : obj) (o : oobs) (after : device) : bool 
 Fixpoint prop_x (l : ldesc) (s : astate) (h : list xitem) : bool :=
   match h with
   | [] => true
-  | XData w _ o :: t =>
+  | XData w _ o pdu :: t =>
       let '(s', want) := spec_exec s w in
-      option_eqb srsp_eqb (oview o) (Some want) && prop_x l s' t
+      option_eqb srsp_eqb (oview o) (Some want) && list_eqb Z.eqb pdu (spec_rsp_pdu want) && prop_x l s' t
   | XOther q o after :: t => prop_x l s t          (* no cell of any table changes: checked by the next XDump *)
   | XSetCounter _ _ _ :: t | XAddEvent _ _ :: t => prop_x l s t
   | XDump ds :: t => dumps_ok l s O (l_blocks l) ds && prop_x l s t
